@@ -362,6 +362,9 @@ impl CodegenContext {
         log::trace!("\n* NEXT PASS ({}) *", self.pass_idx);
         self.segments.values_mut().for_each(|s| s.reset());
         self.changed.clear();
+        // Every pass builds up the analysis from scratch. It is keyed by symbol index, and the index of a symbol that was
+        // removed (e.g. the 'index' of a loop) may be reused by an entirely different symbol in a later pass.
+        self.analysis = Analysis::new(self.tree.clone());
         self.test_elements.clear();
         self.source_map.clear();
     }
